@@ -32,6 +32,11 @@ def sample_event(req: dict, holder: str, via: str, seed: int) -> dict:
     from pyttb.pyttb_utils import tt_sub2ind
     shape = tuple(req["shape"])
     dense = np.array(req["data"], dtype=float).reshape(shape, order="F")
+    # integer-valued data (counts, indicators) stored as such: the element type is a presentation (rotated with the seed)
+    if np.all(dense == np.round(dense)) and seed % 3 == 1:
+        dense = dense.astype(np.int64)
+    elif np.all((dense == 0) | (dense == 1)) and seed % 3 == 2:
+        dense = dense.astype(bool)
     X = ttb.tensor(dense)
     if holder == "sparse":
         X = X.to_sptensor()
@@ -165,7 +170,7 @@ def problem(p: dict):
         X = X.to_sptensor()
     fh, gh, lb = setup(obj, X)
     r2 = np.random.RandomState(p["dseed"] + 5)
-    init = ttb.ktensor([r2.rand(s, R) + 0.1 for s in shape], np.ones(R))
+    init = ttb.ktensor([(r2.randn(s, R) if p.get("signed_init") else r2.rand(s, R) + 0.1) for s in shape], np.ones(R))
     return X, dense, fh, gh, lb, init
 
 
@@ -455,6 +460,15 @@ def histories(tier: str, sd: int) -> List[dict]:
                         seq = rr.choice([[pa, pa], [pa, pb, pa], [pb, pa]])
                         out.append({"solver": solver, "solves": [{"problem": q, "seed": sd + 100 + j} for j, q in enumerate(seq)]})
                         i += 1
+    # epochs whose estimate is not a number (absurd rates: inf - inf in the model values): they are failed epochs
+    for alg in ("sgd", "adam", "adagrad"):
+        for rate in (1e150, 1e200):
+            base = {"loss": "gaussian", "sparse": False, "fsampler": "uniform", "fsamples": 6, "gsampler": "uniform", "gsamples": 4,
+                    "dseed": sd + 3, "signed_init": True}
+            # (one iteration per epoch: a second iteration from such a model is refused with "Infinite gradient")
+            solver = {"alg": alg, "rate": rate, "decay": 0.1, "max_fails": 2, "epoch_iters": 1, "max_iters": 4, "tol": "none"}
+            # (order 3, rank 2: the model values are sums of products that overflow with either sign)
+            out.append({"solver": solver, "solves": [{"problem": dict(base, shape=[3, 4, 2], rank=2), "seed": sd + 300}]})
     # the solver's own default sampler on one object over different data (other size, other order, other nonzero pattern)
     for alg in ("sgd", "adam", "adagrad"):
         for sparse in (False, True):
